@@ -197,7 +197,7 @@ theorem clean_removes_only_dead {u : Int} {s s' : State} {i : Identity} {view : 
 /-- the labels by which the records under identity `j` legitimately change: `j`'s own writes (keep-alive, self-touch,
     withdrawal) and anybody's write under `j`'s name -/
 def Writes (j : Identity) : Label → Prop
-  | .keepalive i _ | .wake i _ | .land i | .exit i | .exitEnd i | .foreign i _ => i = j
+  | .keepalive i _ | .wake i _ | .land i | .exit i | .exitEnd i | .foreign i _ | .keepaliveFail i _ => i = j
   | _ => False
 
 /-- FULL, for ALL label lists: a record stays in the peering object for as long as it is alive, whatever the OTHER
@@ -233,6 +233,12 @@ theorem live_record_kept {u : Int} {j : Identity} {r : Rec} : ∀ (ls : List Lab
         rw [hst]; exact mem_erase.mpr ⟨hm, fun e => hnw e.symm⟩
       | exitLost i => obtain ⟨_, _, _, _, hst, _⟩ := exitLost_spec hs; rw [hst]; exact hm
       | exitBegin i => obtain ⟨_, _, _, _, _, hst, _⟩ := exitBegin_spec hs; rw [hst]; exact hm
+      | keepaliveFail i w =>
+        obtain ⟨_, _, _, _, hst, _⟩ := keepaliveFail_spec hs
+        rw [hst]
+        cases w
+        · exact hm
+        · exact mem_erase.mpr ⟨hm, fun e => hnw e.symm⟩
       | exitEnd i =>
         obtain ⟨_, _, _, _, _, hst, _⟩ := exitEnd_spec hs
         rw [hst]; exact mem_erase.mpr ⟨hm, fun e => hnw e.symm⟩
@@ -360,6 +366,177 @@ theorem exiting_operator_still_blocks {u B : Int} {s s' : State} (hu : 0 < u) (h
   show blockedB u s.status b ob.prio s.now = true
   rw [blockedB_iff]
   exact ⟨a, r, hr, hab, hlive, by omega⟩
+
+/-! ## the failed keep-alive: fail-stop (seeded change C13e was the negation) -/
+
+/-- is stopping or gone: never again a running operator that is not on its way out -/
+def StoppingOrGone (s : State) (i : Identity) : Prop := ∃ o, s.ops i = some o ∧ (o.alive = true → o.exiting = true)
+
+theorem stoppingOrGone_upd {s s1 : State} {i j : Identity} {oj onew : Op} (hp : StoppingOrGone s i) (hj : s.ops j = some oj)
+    (hops : s1.ops = updOp s.ops j onew)
+    (hk : (oj.alive = true → oj.exiting = true) → onew.alive = true → onew.exiting = true) : StoppingOrGone s1 i := by
+  obtain ⟨o, ho, hP⟩ := hp
+  by_cases hij : i = j
+  · subst hij
+    rw [ho] at hj; injection hj with e; subst e
+    exact ⟨onew, by rw [hops]; simp [updOp], hk hP⟩
+  · exact ⟨o, by rw [hops, updOp_other _ _ hij]; exact ho, hP⟩
+
+theorem stoppingOrGone_step {u : Int} {s s1 : State} {i : Identity} {l : Label} (hp : StoppingOrGone s i)
+    (hl : ∀ p lt, l ≠ .start i p lt) (hs : step u s l = some s1) : StoppingOrGone s1 i := by
+  cases l with
+  | start j p lt =>
+    obtain ⟨_, _, _, _, hops⟩ := start_spec hs
+    have hij : i ≠ j := fun e => hl p lt (by rw [e])
+    obtain ⟨o, ho, hP⟩ := hp
+    exact ⟨o, by rw [hops, updOp_other _ _ hij]; exact ho, hP⟩
+  | keepalive j lag =>
+    obtain ⟨oj, hj, _, _, _, _, hops⟩ := keepalive_spec hs
+    exact stoppingOrGone_upd hp hj hops (fun h ha => h ha)
+  | keepaliveFail j w =>
+    obtain ⟨oj, hj, _, _, _, _, hops⟩ := keepaliveFail_spec hs
+    exact stoppingOrGone_upd hp hj hops (fun _ _ => rfl)
+  | exit j =>
+    obtain ⟨oj, hj, _, _, _, hops, _⟩ := exit_spec hs
+    exact stoppingOrGone_upd hp hj hops (fun _ ha => by simp at ha)
+  | exitLost j =>
+    obtain ⟨oj, hj, _, _, _, hops, _⟩ := exitLost_spec hs
+    exact stoppingOrGone_upd hp hj hops (fun _ ha => by simp at ha)
+  | exitBegin j =>
+    obtain ⟨oj, hj, _, _, _, _, _, hops⟩ := exitBegin_spec hs
+    exact stoppingOrGone_upd hp hj hops (fun _ _ => rfl)
+  | exitEnd j =>
+    obtain ⟨oj, hj, _, _, _, _, _, hops⟩ := exitEnd_spec hs
+    exact stoppingOrGone_upd hp hj hops (fun _ ha => by simp at ha)
+  | kill j =>
+    obtain ⟨oj, hj, _, _, _, hops, _⟩ := kill_spec hs
+    exact stoppingOrGone_upd hp hj hops (fun _ ha => by simp at ha)
+  | deliver j =>
+    obtain ⟨oj, hj, _, _, _, _, _, hops⟩ := deliver_spec hs
+    exact stoppingOrGone_upd hp hj hops (fun h ha => h ha)
+  | deliverStale j view vv =>
+    obtain ⟨oj, onew, hj, _, _, _, _, _, _, hops, _, _, hal, hex, _⟩ := stale_spec hs
+    exact stoppingOrGone_upd hp hj hops (fun h ha => by rw [hex]; exact h (by rw [← hal]; exact ha))
+  | wake j lag =>
+    obtain ⟨oj, hj, _, _, _, hops, _⟩ := wake_spec hs
+    exact stoppingOrGone_upd hp hj hops (fun h ha => h ha)
+  | wakeIssue j =>
+    obtain ⟨oj, hj, _, _, _, _, _, hops⟩ := wakeIssue_spec hs
+    exact stoppingOrGone_upd hp hj hops (fun h ha => h ha)
+  | land j =>
+    obtain ⟨oj, t, hj, _, _, _, hops, _⟩ := land_spec hs
+    exact stoppingOrGone_upd hp hj hops (fun h ha => h ha)
+  | tick d => simp only [step, Option.some.injEq] at hs; subst hs; exact hp
+  | expire j => simp only [step, Option.some.injEq] at hs; subst hs; exact hp
+  | foreign j r => simp only [step, Option.some.injEq] at hs; subst hs; exact hp
+
+theorem stoppingOrGone_run {u : Int} {i : Identity} : ∀ (ls : List Label) (s s' : State), StoppingOrGone s i →
+    (∀ l ∈ ls, ∀ p lt, l ≠ .start i p lt) → run u s ls = some s' → StoppingOrGone s' i := by
+  intro ls
+  induction ls with
+  | nil => intro s s' hp _ h; simp only [run, Option.some.injEq] at h; subst h; exact hp
+  | cons l rest ih =>
+    intro s s' hp hall h
+    simp only [run] at h
+    cases hs : step u s l with
+    | none => simp [hs] at h
+    | some s1 =>
+      simp only [hs] at h
+      exact ih s1 s' (stoppingOrGone_step hp (hall l List.mem_cons_self) hs)
+        (fun l' hl' => hall l' (List.mem_cons_of_mem _ hl')) h
+
+/- Full clause: "A running operator renews its record before it expires" - and when it CANNOT (the API refuses the keep-alive
+   for good), it does not stay a running operator. -/
+/-- FULL, for ALL label lists. An operator whose keep-alive has failed (`keepaliveFail`: `touch()` raised in `keepalive()`,
+    the task ended, the orchestrator was cancelled) never again is a running operator that is not on its way out: through
+    anything that happens afterwards - time, the others' keep-alives and views of any age, foreign writes, even further
+    keep-alives under its name (the over-approximation of the model) - its entry is `exiting` or gone, until somebody
+    starts a new process under that identity. It takes no more verdicts (`deliver`, `deliverStale` are not enabled for it:
+    it never resumes or pauses again), and a graceful stop cannot begin (it is stopping already). What the seeded variant
+    `stepSwallow` does instead: `swallowed_keepalive_two_active_witness`. -/
+theorem failed_keepalive_stops {u : Int} {i : Identity} {w : Bool} {s s1 : State}
+    (h1 : step u s (.keepaliveFail i w) = some s1) (ls : List Label) (s' : State)
+    (hall : ∀ l ∈ ls, ∀ p lt, l ≠ .start i p lt) (h2 : run u s1 ls = some s') :
+    (∃ o, s'.ops i = some o ∧ (o.alive = true → o.exiting = true)) ∧
+    step u s' (.deliver i) = none ∧ (∀ view vv, step u s' (.deliverStale i view vv) = none) ∧
+    step u s' (.exitBegin i) = none := by
+  have h0 : StoppingOrGone s1 i := by
+    obtain ⟨o, _, _, _, _, _, hops⟩ := keepaliveFail_spec h1
+    exact ⟨{ o with exiting := true, sleeping := false, nextKA := none }, by rw [hops]; simp [updOp], fun _ => rfl⟩
+  obtain ⟨o, ho, hP⟩ := stoppingOrGone_run ls s1 s' h0 hall h2
+  have hg : (o.alive && !o.exiting) = false := by
+    cases ha : o.alive with
+    | false => simp
+    | true => simp [hP ha]
+  refine ⟨⟨o, ho, hP⟩, ?_, ?_, ?_⟩
+  · simp only [step, ho, hg]; rfl
+  · intro view vv; simp only [step, ho, hg]; rfl
+  · simp only [step, ho, hg]; rfl
+
+/-- FULL. What the failed keep-alive leaves behind: when the withdrawal of `keepalive()`'s `finally` lands (`w = true`) the
+    record is gone at once - BEFORE the handling has stopped (finding F11: `failstop_withdraws_before_handling_stops_witness`);
+    and the stop can complete (`exitEnd` is enabled: the operator task ends), after which the operator is gone without a
+    record. When the withdrawal fails too (`w = false`) the record stays and expires like a killed operator's. -/
+theorem failed_keepalive_withdraws {u : Int} {i : Identity} {s s1 : State}
+    (h1 : step u s (.keepaliveFail i true) = some s1) :
+    (∀ r, (i, r) ∉ s1.status) ∧
+    ∃ s2, step u s1 (.exitEnd i) = some s2 ∧ (∀ r, (i, r) ∉ s2.status) ∧ ∃ o, s2.ops i = some o ∧ o.alive = false := by
+  obtain ⟨o, ho, ha, _, hst, _, hops⟩ := keepaliveFail_spec h1
+  have hgone : ∀ r, (i, r) ∉ s1.status := by
+    intro r hm
+    rw [hst] at hm
+    exact (mem_erase.mp hm).2 rfl
+  refine ⟨hgone, ?_⟩
+  have ho1 : s1.ops i = some { o with exiting := true, sleeping := false, nextKA := none } := by rw [hops]; simp [updOp]
+  cases hs2 : step u s1 (.exitEnd i) with
+  | none => simp [step, ho1, ha] at hs2
+  | some s2 =>
+    obtain ⟨o2, ho2, _, _, _, hst2, _, hops2⟩ := exitEnd_spec hs2
+    refine ⟨s2, rfl, ?_, { o2 with alive := false, exiting := false, sleeping := false, nextKA := none, inflight := none },
+      by rw [hops2]; simp [updOp], rfl⟩
+    intro r hm
+    rw [hst2] at hm
+    exact (mem_erase.mp hm).2 rfl
+
+example : (run 64 init [.start "A" 100 60, .keepalive "A" 0, .tick 3392, .keepaliveFail "A" true, .tick 6400,
+                        .keepalive "A" 0, .tick 64, .exitEnd "A"]).map
+    (fun s => ((s.ops "A").map (fun o => (o.alive, o.exiting)), s.status)) = some (some (false, false), []) := by decide
+
+set_option synthInstance.maxSize 2048 in
+/-- The seeded change C13e in Lean (the variant `stepSwallow`: the error of a failed keep-alive is logged, "the record is
+    renewed on the next round"). A (priority 100) and B (priority 0), lifetime 60 s both; A active, B paused, its call
+    sleeping towards A's deadline. At 53 s A's keep-alive is refused. Under the VARIANT (first conjunct) A runs on - alive,
+    not stopping, active -, its next attempt a whole period away; at 60 s its record (stamped 0) expires, B's sleeping call
+    wakes at that deadline and touches itself, B sees A dead, cleans the record and RESUMES: A and B both running, both
+    active, A without a record - "A running operator renews its record before it expires" and "exactly the highest-priority
+    one ends up active" both broken (for every lifetime > 20 s: 2·(lifetime − 5…10) > lifetime). Under the CODE's step
+    (second conjunct) the same labels leave A `exiting` - it stopped at 53 s and withdrew - and B the only active one once
+    A's stop has completed (`exitEnd`). Replayed on the real code: corpus/C13/ka_refused_409_lifetime60.json (must pass;
+    with the seeded change it fails clauses C and T of the oracle). -/
+theorem swallowed_keepalive_two_active_witness :
+    (runSwallow 64 init [.start "A" 100 60, .start "B" 0 60, .keepalive "A" 0, .keepalive "B" 0, .deliver "A", .deliver "B",
+                         .tick 3392, .keepalive "B" 0, .keepaliveFail "A" true, .tick 448, .wake "B" 0, .deliver "B"]).map
+        (fun s => (s.now, (s.ops "A").map (fun o => (o.alive, o.exiting, o.paused)),
+                   (s.ops "B").map (fun o => (o.alive, o.exiting, o.paused)), s.status.map (·.1)))
+      = some (3840, some (true, false, false), some (true, false, false), ["B"]) ∧
+    (run 64 init [.start "A" 100 60, .start "B" 0 60, .keepalive "A" 0, .keepalive "B" 0, .deliver "A", .deliver "B",
+                  .tick 3392, .keepalive "B" 0, .keepaliveFail "A" true, .tick 448, .wake "B" 0, .deliver "B", .exitEnd "A"]).map
+        (fun s => ((s.ops "A").map (fun o => (o.alive, o.exiting)),
+                   (s.ops "B").map (fun o => (o.alive, o.exiting, o.paused)), s.status.map (·.1)))
+      = some (some (false, false), some (true, false, false), ["B"]) := by decide
+
+set_option synthInstance.maxSize 2048 in
+/-- Finding F11 in Lean: on the fail-stop way out the record is withdrawn BEFORE the handling has stopped. A's keep-alive is
+    refused at 53 s: `keepalive()`'s `finally` withdraws the record at once; B processes that event and resumes - while A is
+    still `exiting` (alive: its watchers' queues deplete, its handlers in flight finish). On the graceful stop the record
+    stays, renewed, through that window and B stays paused (`exiting_operator_still_blocks`). Replayed on the real code:
+    corpus/C13/F11.json. -/
+theorem failstop_withdraws_before_handling_stops_witness :
+    (run 64 init [.start "A" 100 60, .start "B" 0 60, .keepalive "A" 0, .keepalive "B" 0, .deliver "A", .deliver "B",
+                  .tick 3392, .keepalive "B" 0, .keepaliveFail "A" true, .deliver "B"]).map
+        (fun s => ((s.ops "A").map (fun o => (o.alive, o.exiting, o.paused)),
+                   (s.ops "B").map (fun o => (o.alive, o.exiting, o.paused)), s.status.map (·.1)))
+      = some (some (true, true, false), some (true, false, false), ["B"]) := by decide
 
 /-! ## settling and failover -/
 
@@ -688,6 +865,13 @@ theorem withdrawn_stays_aux {u : Int} {i : Identity} : ∀ (ls : List Label) (s 
         | exitBegin j =>
           obtain ⟨oj, hj, hja, _, _, hst, _, hops⟩ := exitBegin_spec hs
           exact other (notme hj hja) hops (fun r hm => by rw [hst] at hm; exact hm)
+        | keepaliveFail j w =>
+          obtain ⟨oj, hj, hja, _, hst, _, hops⟩ := keepaliveFail_spec hs
+          refine other (notme hj hja) hops (fun r hm => ?_)
+          rw [hst] at hm
+          cases w
+          · exact hm
+          · exact (mem_erase.mp hm).1
         | exitEnd j =>
           obtain ⟨oj, hj, hja, _, _, hst, _, hops⟩ := exitEnd_spec hs
           exact other (notme hj hja) hops (fun r hm => by rw [hst] at hm; exact (mem_erase.mp hm).1)
